@@ -389,7 +389,13 @@ def run_query(work, q, kf_open, seed=0, do_selfcheck=True):
         if '(error' in out: return done('UNDECIDED', 'solver error line: ' + out[-400:])
         res = parse_results(out)
         r['properties'] = len(res)
-        fails = [x for x in res if x['status'] != 'SUCCESS']
+        # cbmc reports properties located after a failed check on the same path as UNKNOWN (assert-then-assume):
+        # only FAILURE entries are counterexamples; UNKNOWN without any FAILURE is undecided
+        fails = [x for x in res if x['status'] == 'FAILURE']
+        unknown = [x for x in res if x['status'] not in ('SUCCESS', 'FAILURE')]
+        r['unknown_status'] = len(unknown)
+        if unknown and not [x for x in fails if x['kind'] != 'witness']:
+            return done('UNDECIDED', '%d properties with status %s and no FAILURE' % (len(unknown), unknown[0]['status']))
         wit = [x for x in res if x['kind'] == 'witness']
         r['witness_reachable'] = any(x['status'] == 'FAILURE' for x in wit) if wit else None
         real = [x for x in fails if x['kind'] != 'witness']
